@@ -417,6 +417,52 @@ def part_keys(fx, tmp):
             else:
                 C.nontrivial()
             shutil.rmtree(d, ignore_errors=True)
+    # several key files in one key2jwk call (with generated kids), written back by one jwk2key call from a file and from stdin
+    if C.case("key2jwk with six key files of every type at once (random kids), jwk2key from file and from standard input"):
+        d = tempfile.mkdtemp(dir=tmp)
+        names = ["rsa2048a", "p256_x0", "p521_d0", "ed25519a", "ed448", "k256"]
+        out = os.path.join(d, "all.json")
+        raw = bytes(range(1, 65))
+        open(os.path.join(d, "h.bin"), "wb").write(raw)
+        rc, so, se = run([tool("key2jwk"), "--quiet", "--output=" + out] + [os.path.join(KEYS, n + ".priv.pem") for n in names] + [os.path.join(d, "h.bin")])
+        try:
+            keys = json.load(open(out))["keys"]
+        except Exception as ex:
+            keys = []
+            C.violation("key2jwk|fails", "multi-file call: exit %d %s" % (rc, ex))
+        C.obs(len(keys))
+        if keys and len(keys) != 7:
+            C.violation("key2jwk|key-count", "7 files given, %d keys written" % len(keys))
+        kids = [k.get("kid") for k in keys]
+        if keys and (None in kids or len(set(kids)) != len(kids)):
+            C.violation("key2jwk|kids", "generated kids are missing or not unique: %s" % kids)
+        for via in ("file", "stdin"):
+            od = os.path.join(d, "o_" + via)
+            os.mkdir(od)
+            if via == "file":
+                rc, so, se = run([tool("jwk2key"), "--dir=" + od, out])
+            else:
+                rc, so, se = run([tool("jwk2key"), "-d", od, "-"], stdin=open(out, "rb").read())
+            files = sorted(os.listdir(od))
+            C.obs(len(files))
+            if len(files) != len(keys):
+                C.violation("jwk2key|file-count", "%d keys, %d files written via %s: %s" % (len(keys), len(files), via, se.decode(errors="replace")[-200:]))
+            got = set()
+            for f in files:
+                pth = os.path.join(od, f)
+                if f.endswith(".bin"):
+                    if open(pth, "rb").read() != raw:
+                        C.violation("jwk2key|key-differs", "oct key written back differs (multi-file, %s)" % via)
+                    got.add("oct")
+                else:
+                    fp = pem_fingerprint(pth, True)[1]
+                    for n in names:
+                        if fp == pem_fingerprint(os.path.join(KEYS, n + ".priv.pem"), True)[1]:
+                            got.add(n)
+            if keys and got != set(names) | {"oct"}:
+                C.violation("jwk2key|key-differs", "via %s only %s came back identical" % (via, sorted(got)))
+        C.nontrivial()
+        shutil.rmtree(d, ignore_errors=True)
     # oct files of 32..512 bytes (below 32 bytes key2jwk does not guess HMAC)
     lens = range(32, 513) if C.tier == "thorough" else list(range(32, 72)) + [127, 128, 129, 255, 256, 257, 511, 512]
     for n in lens:
